@@ -795,6 +795,8 @@ def fam_resume(out, tier, rnd):
                                 w = out.world(prof)
                                 w.build(A); w.set(A, "onDisconnection", 1); w.set(A, "window", win)
                                 w.connect(A, keepalive=0, cleanStart=False, version=v1); w.recv(A, W.connack(0, 0))
+                                if len(pat) >= 2 and rnd.random() < 0.5:
+                                    w.pokeid(65535 - rnd.randint(1, len(pat) - 1))      # the identifiers in flight straddle the 65535 -> 1 wrap
                                 if prof == "both":
                                     w.subscribe(A, [("s/a", 1), ("s/b", 2)]); w.unsubscribe(A, ["s/c"])
                                 for j, q in enumerate(pat):
